@@ -19,7 +19,8 @@ RULE = ("generated coding graphs and arc subsets of order 1..3 (thorough 4), a r
         "40 calls, thorough 200); after EVERY call the accessor, the latter map, the removed arc and the list of positive scores "
         "are compared with the model, and the oracle checks: exactly one entry changed, it was an arc, its score was the maximum "
         "of the independently recomputed score table, accessor_to_latter_map(accessor) == latter_map.  non-trivial = history "
-        "with at least two returning calls; distinct by payload")
+        "with at least two returning calls; distinct by payload.  Every second history is preceded by scoring and removal calls on one to "
+        "three TWIN graphs (one arc moved to another predecessor of the same vertex: same vertices, arc count, index sums).")
 TRUSTED_BASE = [
     "Coq 8.16.1 kernel (coqc); no native_compute",
     "Print Assumptions of every C19 theorem: Closed under the global context",
@@ -46,7 +47,19 @@ def payloads(rng, tier):
             continue
         same = rng.choice([None, 0, 1, 2, 3])
         flags = [same if same is not None else rng.randrange(4) for _ in range(cap if k < 4 else min(cap, 50))]
-        yield "history", {"k": k, "rows": rows, "flags": flags}
+        p = {"k": k, "rows": rows, "flags": flags}
+        if i % 2 == 0:
+            # the history is preceded by scoring / removal calls on TWIN graphs (different arc subsets with identical vertex
+            # sets, arc counts and index sums) with the flags of the first call: a remembered result must not leak across graphs
+            twins, cur = [], rows
+            for _ in range(rng.choice([1, 1, 2, 3])):
+                cur = gen.twin_graph(rng, cur, k)
+                if cur is None:
+                    break
+                twins.append(cur)
+            if twins:
+                p["twins"] = twins
+        yield "history", p
 
 
 def leaves(lm, v, d):
@@ -82,10 +95,24 @@ def build(stream, p):
     k, rows, flags = p["k"], p["rows"], p["flags"]
     call = enc_call(53, gen.enc_acc(rows), flags)
     steps = []
+    steps_direct = []
 
     def run():
+        for t in p.get("twins", []):
+            ta = gen.acc_array(t)
+            tm = dsw.accessor_to_latter_map(ta)
+            f0 = flags[0] if flags else 3
+            try:
+                dsw.calculate_intersection_score(tm, observed_length=k, has_insertion=bool(f0 % 2), has_deletion=bool(f0 // 2))
+                dsw.remove_nasty_arc(accessor=ta, latter_map=tm, has_insertion=bool(f0 % 2), has_deletion=bool(f0 // 2))
+            except Exception:  # noqa
+                pass
         acc = gen.acc_array(rows)
         lm = dsw.accessor_to_latter_map(acc)
+        if p.get("twins"):
+            f0 = flags[0] if flags else 3
+            direct = dsw.calculate_intersection_score(lm, observed_length=k, has_insertion=bool(f0 % 2), has_deletion=bool(f0 // 2))
+            steps_direct.append((np.array(direct).copy(), bool(f0 % 2), bool(f0 // 2)))
         out = [[0]]
         for f in flags:
             before = acc.copy()
@@ -108,6 +135,14 @@ def build(stream, p):
     def oracle(ans, raw):
         if isinstance(raw, BaseException):
             return "history raised outside a call: %r" % (raw,)
+        for direct, ins, dele in steps_direct:
+            lm0 = {a: [x for x in row if x >= 0] for a, row in enumerate(rows) if any(x >= 0 for x in row)}
+            sc = score_table(lm0, k, ins, dele)
+            for (a, j), x in sc.items():
+                if int(direct[a][j]) != x:
+                    return "calculate_intersection_score after a call on a twin graph: entry (%d,%d) is %d, recomputed %d" % (a, j, int(direct[a][j]), x)
+            if int(np.sum(np.array(direct) > 0)) != sum(1 for x in sc.values() if x > 0):
+                return "calculate_intersection_score after a call on a twin graph reports positive scores on other arcs"
         for i, (before, lm_before, after, lm_after, (u, v), scores, ins, dele) in enumerate(steps):
             diff = np.argwhere(before != after)
             if len(diff) != 1:
